@@ -326,7 +326,7 @@ class RaggedArray(IndexableArray, np.lib.mixins.NDArrayOperatorsMixin):
             if isinstance(input, (Number, np.generic)) or (isinstance(input, np.ndarray) and input.ndim == 0):
                 datas.append(input)
             elif isinstance(input, np.ndarray) or isinstance(input, list):
-                broadcasted = self._broadcast_rows(input, dtype=result_type)
+                broadcasted = self._broadcast_rows(input, dtype=input.dtype)  # the ufunc itself promotes (its loop type need not be result_type)
                 datas.append(broadcasted.ravel())
             elif isinstance(input, RaggedArray):
                 datas.append(input.ravel())
